@@ -99,7 +99,7 @@ def settledStore : St :=
 
 example : Settled settledStore [⟨⟨"a", "KA", 1, true⟩, "xr-abc", false⟩, ⟨⟨"b", "KB", 0, false⟩, "xr-def", false⟩] := by
   refine ⟨⟨by decide, by decide, by decide, ?_, by intro o h; cases h⟩, rfl, by decide, by decide, by decide, by decide, ?_,
-    by simp [settledStore, refsOf, nkey, List.mergeSort, List.MergeSort.Internal.splitInTwo, refLt]⟩
+    by simp [settledStore, refsOf, nkey, List.mergeSort, List.MergeSort.Internal.splitInTwo, refLt], rfl⟩
   · intro o1 h1 o2 h2 _ _ ha _
     simp only [settledStore, List.mem_cons, List.mem_nil_iff, or_false] at h1 h2
     rcases h1 with rfl | rfl <;> rcases h2 with rfl | rfl <;> first | rfl | (simp at ha)
